@@ -5,8 +5,8 @@ use educe::Educe;
 use core::cmp::Ordering;
 #[derive(Educe)]
 #[educe(PartialEq)]
-pub enum T { Zed { f: A<0>, #[educe(PartialEq(method("m_eq")))] builder: A<0>, y: A<2> }, B { builder: A<0>, #[educe(PartialEq(ignore = false))] source: A<0>, #[educe(PartialEq(ignore))] b: A<2> } }
-pub fn values() -> Vec<T> { vec![T::Zed { f: A(1), builder: A(1), y: A(7) }, T::Zed { f: A(7), builder: A(7), y: A(0) }, T::Zed { f: A(1), builder: A(0), y: A(1) }, T::Zed { f: A(7), builder: A(7), y: A(1) }, T::Zed { f: A(7), builder: A(0), y: A(1) }, T::Zed { f: A(0), builder: A(0), y: A(1) }, T::Zed { f: A(0), builder: A(1), y: A(1) }, T::Zed { f: A(0), builder: A(7), y: A(1) }, T::Zed { f: A(0), builder: A(7), y: A(0) }, T::Zed { f: A(0), builder: A(7), y: A(7) }, T::Zed { f: A(1), builder: A(7), y: A(7) }, T::Zed { f: A(1), builder: A(7), y: A(1) }, T::Zed { f: A(7), builder: A(0), y: A(0) }, T::Zed { f: A(0), builder: A(1), y: A(0) }, T::Zed { f: A(0), builder: A(0), y: A(7) }, T::Zed { f: A(7), builder: A(7), y: A(7) }, T::Zed { f: A(1), builder: A(0), y: A(7) }, T::Zed { f: A(0), builder: A(1), y: A(7) }, T::Zed { f: A(7), builder: A(0), y: A(7) }, T::Zed { f: A(7), builder: A(1), y: A(0) }, T::Zed { f: A(0), builder: A(0), y: A(0) }, T::Zed { f: A(1), builder: A(7), y: A(0) }, T::Zed { f: A(1), builder: A(0), y: A(0) }, T::Zed { f: A(7), builder: A(1), y: A(1) }, T::B { builder: A(0), source: A(1), b: A(1) }, T::B { builder: A(1), source: A(0), b: A(7) }, T::B { builder: A(0), source: A(7), b: A(7) }, T::B { builder: A(7), source: A(1), b: A(1) }, T::B { builder: A(1), source: A(1), b: A(0) }, T::B { builder: A(7), source: A(7), b: A(1) }, T::B { builder: A(0), source: A(0), b: A(0) }, T::B { builder: A(7), source: A(7), b: A(7) }, T::B { builder: A(0), source: A(1), b: A(0) }, T::B { builder: A(7), source: A(1), b: A(7) }, T::B { builder: A(1), source: A(7), b: A(7) }, T::B { builder: A(1), source: A(7), b: A(0) }, T::B { builder: A(0), source: A(7), b: A(1) }, T::B { builder: A(7), source: A(0), b: A(0) }, T::B { builder: A(0), source: A(7), b: A(0) }, T::B { builder: A(7), source: A(1), b: A(0) }, T::B { builder: A(0), source: A(1), b: A(7) }, T::B { builder: A(0), source: A(0), b: A(7) }, T::B { builder: A(1), source: A(7), b: A(1) }, T::B { builder: A(0), source: A(0), b: A(1) }, T::B { builder: A(1), source: A(1), b: A(7) }, T::B { builder: A(1), source: A(0), b: A(1) }, T::B { builder: A(7), source: A(0), b: A(1) }, T::B { builder: A(1), source: A(1), b: A(1) }] }
-pub fn show(x: &T) -> String { #[allow(unused_variables)] match x { T::Zed { f: p0, builder: p1, y: p2 } => format!("Zed({},{},{})", sv(p0), sv(p1), sv(p2)), T::B { builder: p0, source: p1, b: p2 } => format!("B({},{},{})", sv(p0), sv(p1), sv(p2)) } }
-pub fn o_eq(a: &T, b: &T) -> bool { match (a, b) { (T::Zed { f: a0, builder: a1, y: a2 }, T::Zed { f: b0, builder: b1, y: b2 }) => (a0 == b0) && m_eq(a1, b1) && (a2 == b2), (T::B { builder: a0, source: a1, b: a2 }, T::B { builder: b0, source: b1, b: b2 }) => (a0 == b0) && (a1 == b1), _ => false } }
+pub struct T { #[educe(PartialEq(method(m_eq)))] x: A<0> }
+pub fn values() -> Vec<T> { vec![T { x: A(0) }, T { x: A(1) }, T { x: A(7) }] }
+pub fn show(x: &T) -> String { #[allow(unused_variables)] match x { T { x: p0 } => format!("T({})", sv(p0)) } }
+pub fn o_eq(a: &T, b: &T) -> bool { match (a, b) { (T { x: a0 }, T { x: b0 }) => m_eq(a0, b0) } }
 pub fn run(out: &mut Out) { let vs = values(); for a in &vs { for b in &vs { let e = o_eq(a, b); out.check((a == b) == e, "eq_7", "eq", || format!("{} == {} expected {}", show(a), show(b), e)); out.check((a != b) == !e, "eq_7", "ne", || format!("{} != {} expected {}", show(a), show(b), !e)); } } }
